@@ -58,6 +58,33 @@ def run(tier, seed):
     ck.add_mc(lu, "MC_CowCacheLostUpdate(reachability witness)")
     ck.binary = vlib.build_harness()
     race = vlib.build_harness(race=True)
+    # TLC enumerates the interleavings of the visible cache steps; each is forced on real goroutines (gated replay)
+    sched = vlib.vecpath(PROP, "sched")
+    raw = sched + ".raw"
+    with open(raw, "w") as sink:
+        for locked in ("FALSE", "TRUE"):
+            for calls in ((1, 2) if thorough or locked == "FALSE" else (1,)):
+                g = vlib.must_hold(vlib.tlc("CowCacheSched", "Gen_CowCacheSched.cfg", sink=sink, timeout=1500,
+                                            tag="CowCacheSched-%s-%d" % (locked, calls),
+                                            defines={"Locked": locked, "MaxCalls": calls}), "schedule generation")
+                ck.add_mc(g, "Gen_CowCacheSched(Locked=%s, MaxCalls=%d)" % (locked, calls))
+    uniq = sorted(set(open(raw).read().splitlines()))
+    os.unlink(raw)
+    with open(sched, "w") as f:
+        f.write("".join(x + "\n" for x in uniq))
+    kept, total = vlib.cap_vectors(sched, 4000 if thorough else 700, seed)
+    ck.notes["schedules"] = {"distinct": total, "replayed": kept}
+    for b in (ck.binary, race):
+        rr = vlib.run_harness(b, PROP, sched, seed=seed, tier=tier, shards=1, timeout=2400, isolate=True)
+        ck.triage(rr.divs, binary=b)
+        try:
+            ck.absorb(rr)
+        except vlib.Infra:
+            # the code left the protocol of the model: no verdict from the model - unless the same run
+            # also showed the property itself broken (wrong result, published map mutated)
+            if not ck.violations:
+                raise
+    os.unlink(sched)
     rounds = 40 if thorough else 12
     for procs in (1, 2, 4, 16):
         for k in range(3 if thorough else 1):
@@ -92,11 +119,15 @@ def run(tier, seed):
             ck.evals += summ["evals"]
             for d in divs:
                 ck.violations.append((d, 1))
-    ck.distinct = ck.traces + ck.notes.get("race_detector_runs", 0)
+    ck.distinct += ck.traces + ck.notes.get("race_detector_runs", 0)
     ck.samples = [{"trace_event": '{"seq":2,"ev":"store","cache":"thrift.encoder","g":1,"id":1,"n":1}'},
                   {"schedule": "G goroutines x 3 fresh types x 8 entry points behind a barrier, GOMAXPROCS 1/2/4/16"}]
     ck.rule = ("TLC explores all interleavings of 3 goroutines x 2 types x 2 calls of the copy-on-write cache model (lock-free and mutex variants) "
-               "and shows the tolerated lost update reachable; the real packages are stressed with fresh reflect.StructOf types behind a barrier "
+               "and shows the tolerated lost update reachable; TLC enumerates every interleaving of the visible cache steps (load, load behind "
+               "the mutex, store) of 2 goroutines x 2 types x 1..2 calls (spec/CowCacheSched.tla) and each is forced on real goroutines "
+               "through blocking cache hooks on json, proto codec, proto.TypeOf, thrift encoder and decoder caches - the steps must be "
+               "reachable in that order, the results right and the published map afterwards (hits of follow-up calls) the model's, lost "
+               "updates included, also under the race detector; the real packages are stressed with fresh reflect.StructOf types behind a barrier "
                "at GOMAXPROCS 1/2/4/16, every result compared with the same call made alone, the cache/pool hook trace validated by TLC against "
                "spec/TraceConcurrency.tla, and the same workload run under the race detector. distinct_nontrivial = traces validated + race runs")
     ck.assumptions = ["free-running schedules are sampled, not enumerated: absence of races is shown for the explored executions only",
@@ -107,6 +138,9 @@ def run(tier, seed):
 def replay(path, seed):
     d = json.load(open(path))
     c = d.get("case", {})
+    if "vec" in c:
+        from props.common import generic_replay
+        return generic_replay(PROP, path, seed)
     binary = vlib.build_harness(race=bool(c.get("race")))
     ck = vlib.Check(PROP, "quick", seed)
     for attempt in range(5):
